@@ -1127,7 +1127,7 @@ def run_job(job):
             rng = _random.Random(job.get('seed', 0))
             paths = rng.sample(paths, job['sample'])
             res['sampled'] = True
-    elif job['kind'] == 'walks':
+    elif job['kind'] in ('walks', 'preempt'):
         paths = None
     else:
         paths = [[tuple(t) for t in p] for p in job['schedules']]
@@ -1172,7 +1172,43 @@ def run_job(job):
         if inroot >= chunk:
             flush()
 
-    if paths is not None:
+    if job['kind'] == 'preempt':
+        # single-preemption search, independent of the model: thread X runs k lines, then the others
+        # run to completion in a fixed priority order, then X - for every X, k and order
+        import itertools as _it
+        nt = len(scripts)
+        cand = [('C', i) for i in range(nt)] + [('S', 0)]
+        for order in _it.permutations(cand):
+            if len(order) > 3 and order[-1][0] == 'C' and order[-1][1] != nt - 1 and job.get('fewer_orders'):
+                continue
+            x = order[0]
+            for k in range(job.get('maxk', 28)):
+                with RealRun(scripts, o) as run:
+                    obs = [run.observe()]
+                    path = []
+                    if x == ('S', 0):            # the starter exists only after some prepare(): run it first
+                        for _ in range(12):
+                            if run.step(('C', 0)):
+                                path.append(('C', 0))
+                                obs.append(run.observe())
+                            if run.starters:
+                                break
+                    for _ in range(k):
+                        if not run.step(x):
+                            break
+                        path.append(x)
+                        obs.append(run.observe())
+                    while len(path) < 400:
+                        en = run.enabled_tids()
+                        if not en:
+                            break
+                        tid = next((t for t in order[1:] + (x,) if t in en), en[0])
+                        run.step(tid)
+                        path.append(tid)
+                        obs.append(run.observe())
+                    res['problems'] += run.problems
+                account(path, obs)
+    elif paths is not None:
         for p in paths:
             obs, prob = replay_real(scripts, o, p)
             res['problems'] += prob
